@@ -404,13 +404,20 @@ class WebVTTWriter(BaseWriter):
         # A properly encoded WebVTT string (plain unicode must be properly
         # escaped before being appended to this string)
         s = ""
+        # The style tags that are open at this point of the cue text, as
+        # [opening tag, closing tag] pairs, innermost last.
+        open_tags = []
         for i, node in enumerate(nodes):
             if node.type_ == CaptionNode.TEXT:
                 if s and current_layout and node.layout_info != current_layout:
                     # If the positioning changes from one text node to
-                    # another, a new WebVTT cue has to be created.
+                    # another, a new WebVTT cue has to be created. Tags that
+                    # are still open are closed in the cue that ends here and
+                    # opened again in the new one, so that every cue is
+                    # well-formed on its own.
+                    s += "".join(tags[1] for tags in reversed(open_tags))
                     layout_groups.append((s, current_layout))
-                    s = ""
+                    s = "".join(tags[0] for tags in open_tags)
                 # ATTENTION: This is where the plain unicode node content is
                 # finally encoded as WebVTT.
                 s += self._encode_illegal_characters(node.content) or "&nbsp;"
@@ -429,8 +436,14 @@ class WebVTTWriter(BaseWriter):
                         tags = self._convert_style_to_text_tag(style)
                         if node.start:
                             s += tags[0]
+                            open_tags.append(tags)
                         else:
                             s += tags[1]
+                            # the innermost open tag of this kind is closed
+                            for k in range(len(open_tags) - 1, -1, -1):
+                                if open_tags[k] == tags:
+                                    del open_tags[k]
+                                    break
 
                 # TODO: Refactor pycaption and eliminate the concept of a
                 # "Style node"
